@@ -83,6 +83,13 @@ def run(e: Engine, rep: Report):
         'counts clients that are not its own')
     rep.floor('L1', 4, 'pool growth sites')
     rep.floor('L4', 9, 'deque overrides')
+    rep.rule('L11', 'who-may-settle: a request (AsyncResult) is settled - '
+             'set / set_exception - only by the pool client that polled '
+             'it (methods of RelayPoolClient subclasses, where L3 decides '
+             'exactly-once); the pool itself never settles a request a '
+             'client may still hold or may have given back')
+    l11(e, rep)
+
 
 
 def l1_l2(e: Engine, rep: Report):
@@ -775,3 +782,39 @@ def l9(e: Engine, rep: Report):
                'hands a peer exchange to another greenlet',
                reason='no spawn(self.<peer talker>) in the client classes',
                nontrivial=False)
+
+
+# --------------------------------------------------------------------- L11
+def l11(e: Engine, rep: Report):
+    n = 0
+    for f in e.p.functions.values():
+        if not f.module.name.startswith('slimta.relay'):
+            continue
+        owner = f.cls.qname if f.cls is not None else None
+        client = owner is not None and (
+            owner == pool.POOL_CLIENT or
+            e.p.is_subclass(owner, pool.POOL_CLIENT))
+        for c in walk_own(f.node):
+            if not (isinstance(c, ast.Call) and
+                    isinstance(c.func, ast.Attribute) and
+                    c.func.attr in ('set', 'set_exception') and
+                    isinstance(c.func.value, ast.Name)):
+                continue
+            # only results that are requests: not an Event().set()
+            recv = c.func.value.id
+            if 'result' not in recv.lower() and 'request' not in \
+                    recv.lower():
+                continue
+            n += 1
+            rep.evaluations += 1
+            rep.functions.add(f.qname)
+            rep.check(client, 'L11', f.qname, '`%s`' % ' '.join(
+                ast.unparse(c).split())[:50],
+                '%s settles a request although it is not the client that '
+                'polled it: the client may have given the request back to '
+                'the queue (server timed out the idle session) or be about '
+                'to settle it itself - the attempt is told one outcome '
+                'while the request goes on to another' % f.qname,
+                loc=f.loc(c), reason='inside a pool client')
+    if n < 5:
+        rep.error('anchor vanished: request settle sites (%d < 5)' % n)
